@@ -28,7 +28,8 @@ type Item struct {
 //
 //	graph:    addnode{Key,Kind,NeedState,NodeKeyOpt} addedge{From,To} addbranch{From,Ends} compile{Trigger,MaxSteps}
 //	chain:    append{Kind,NodeKey,NeedState} parallel{Items} branch{Items} compile{…}
-//	workflow: addnode{Key,Kind,NeedState} addinput{To,From,In,Fields} addbranch{From,Ends} addend{From,Fields} compile{…}
+//	workflow: addnode{Key,Kind,NeedState} addinput{To,From,In,Fields} addbranch{From,Ends} addend{From,Fields}
+//	          setstatic{To,Fields[0]} compile{…}
 type Call struct {
 	Op         string   `json:"op"`
 	Key        string   `json:"key,omitempty"`
@@ -61,12 +62,27 @@ type CallObs struct {
 	Msg   string   `json:"msg,omitempty"`
 	State []string `json:"state,omitempty"` // canonical snapshot of the builder after the call (snap.go)
 	Ord   []string `json:"ord,omitempty"`   // Workflow Compile: the nodes whose deferred inputs it consumed
-	Gone  []string `json:"-"`               // State of the previous call minus State (multiset)
-	New   []string `json:"-"`               // State minus State of the previous call
+	SOrd  []string `json:"sord,omitempty"`  // Workflow Compile: the nodes whose static values it applied
+	Gone  []uint64 `json:"-"`               // hashed State of the previous call minus hashed State (multiset)
+	New   []uint64 `json:"-"`               // hashed State minus hashed State of the previous call
+}
+
+// hashState: the entries of a snapshot as sorted 40-bit hashes (Corr/C20.v: hs, hstate)
+func hashState(st []string) []uint64 {
+	out := make([]uint64, len(st))
+	for i, s := range st {
+		h := uint64(7)
+		for j := 0; j < len(s); j++ {
+			h = (h*131 + uint64(s[j])) & (1<<40 - 1)
+		}
+		out[i] = h
+	}
+	sort.Slice(out, func(a, b int) bool { return out[a] < out[b] })
+	return out
 }
 
 // msDiff: multiset differences a\b and b\a of two sorted lists
-func msDiff(a, b []string) (gone, added []string) {
+func msDiff(a, b []uint64) (gone, added []uint64) {
 	i, j := 0, 0
 	for i < len(a) && j < len(b) {
 		switch {
@@ -178,7 +194,7 @@ func compileOpts(c *Call) []compose.GraphCompileOption {
 type invoker func(i int) string
 
 func guarded(f func(ctx context.Context) (any, error)) string {
-	ctx, cancel := context.WithTimeout(context.Background(), 400*time.Millisecond)
+	ctx, cancel := context.WithTimeout(context.Background(), 2*time.Second)
 	defer cancel()
 	ch := make(chan string, 1)
 	go func() {
@@ -198,7 +214,7 @@ func guarded(f func(ctx context.Context) (any, error)) string {
 	select {
 	case s := <-ch:
 		return s
-	case <-time.After(3 * time.Second):
+	case <-time.After(10 * time.Second):
 		return "hang"
 	}
 }
@@ -219,6 +235,7 @@ type frontEnd interface {
 	apply(c *Call) (error, invoker)
 	snapshot() []string          // canonical state (snap.go)
 	pendingInputs() map[string]int // Workflow: deferred inputs per node (nil otherwise)
+	pendingStatics() map[string]int // Workflow: static values not yet applied, per node (nil otherwise)
 }
 
 func nodeOpts[T any](needState bool, nodeKey string, useNodeKey bool) []compose.GraphAddNodeOpt {
@@ -418,6 +435,23 @@ func (f *wfFE) apply(c *Call) (error, invoker) {
 			h.AddInput(c.From, mappings(c.Fields)...)
 		}
 		return nil, nil
+	case "setstatic":
+		var h *compose.WorkflowNode
+		if c.To == compose.END {
+			if x, ok := f.handles[c.To]; ok {
+				h = x
+			} else {
+				h = f.w.End()
+				f.handles[c.To] = h
+			}
+		} else {
+			h = f.handles[c.To]
+		}
+		if h == nil || len(c.Fields) == 0 {
+			return nil, nil // no handle (model: no-op)
+		}
+		h.SetStaticValue(compose.FieldPath{c.Fields[0]}, "static:"+c.Fields[0])
+		return nil, nil
 	case "addbranch":
 		f.w.AddBranch(c.From, mkBranch(c.Ends, sizeWS))
 		return nil, nil
@@ -523,13 +557,14 @@ func optKey(c *Call) string { return fmt.Sprintf("%s/%d", c.Trigger, c.MaxSteps)
 func execute(c *Case, snapshot bool) execResult {
 	fe := newFE(c)
 	res := execResult{intact: true}
-	prevState := fe.snapshot()
+	prevState := hashState(fe.snapshot())
 	var runs []*compiled
 	for i := range c.Calls {
 		call := &c.Calls[i]
 		var err error
 		var inv invoker
 		before := fe.pendingInputs()
+		sbefore := fe.pendingStatics()
 		p := lib.Recover(func() { err, inv = fe.apply(call) })
 		var o CallObs
 		switch {
@@ -551,9 +586,17 @@ func execute(c *Case, snapshot bool) execResult {
 				}
 			}
 			sort.Strings(o.Ord)
+			safter := fe.pendingStatics()
+			for k, n := range sbefore {
+				if n > 0 && safter[k] == 0 {
+					o.SOrd = append(o.SOrd, k)
+				}
+			}
+			sort.Strings(o.SOrd)
 		}
-		o.Gone, o.New = msDiff(prevState, o.State)
-		prevState = o.State
+		cur := hashState(o.State)
+		o.Gone, o.New = msDiff(prevState, cur)
+		prevState = cur
 		res.obs = append(res.obs, o)
 		if inv != nil && snapshot {
 			cr := &compiled{at: i, opts: optKey(call), inv: inv}
@@ -584,7 +627,11 @@ func execute(c *Case, snapshot bool) execResult {
 			if cr.snap[k] == "" {
 				continue
 			}
-			if now := cr.inv(k); now != cr.snap[k] {
+			now := cr.inv(k)
+			for retry := 0; retry < 2 && now != cr.snap[k]; retry++ {
+				now = cr.inv(k) // a loaded machine can make one run hit the context deadline
+			}
+			if now != cr.snap[k] {
 				res.intact = false
 				if res.affected == "" {
 					res.affected = fmt.Sprintf("runnable of Compile #%d on input %d: before %s, after the later calls %s",
